@@ -26,6 +26,7 @@ func checkC04(c *Ctx) {
 	ruleLPTypestate(c)
 	ruleArity(c)
 	ruleIndexGuard(c)
+	ruleGuardSuffices(c)
 	ruleNilMatcher(c)
 	ruleNulRange(c)
 	c.Assume("implicit panics (index, slice bounds, nil dereference), the value-guard panics (Advance, ConsumeIndent, close, wrap), termination of loops that make progress on every path, and stack depth are not decided")
